@@ -397,6 +397,10 @@ func (vc *VC) unify(env *Env, a Term, at types.Type, b Term, bt types.Type) (Ter
 }
 
 func (vc *VC) specUnary(env *Env, x *SUnary) (Term, types.Type) {
+	if x.Op == "&" {
+		addr, ty := vc.specAddr(env, x.X)
+		return addr, types.NewPointer(ty)
+	}
 	v, vt := vc.specExpr(env, x.X)
 	switch x.Op {
 	case "!":
@@ -420,6 +424,8 @@ func (vc *VC) specUnary(env *Env, x *SUnary) (Term, types.Type) {
 			return T(SInt, "(- (- %s) 1)", v.S), vt
 		}
 		return T(SInt, "(- %s %s)", BigLit(ii.max()).S, v.S), vt
+	case "&":
+		// handled before evaluating the operand (see specExpr)
 	case "*":
 		pt, ok := vt.Underlying().(*types.Pointer)
 		if !ok {
